@@ -264,7 +264,18 @@ pub fn record_c01(runs: usize, path: &str) {
         };
         // every fourth program: two witnesses whose (small, sum-rich) types are forced by the program, so that compact
         // witness values of every type shape are followed by further data in the stream
-        let dag = if attempts % 4 == 1 { typed_witness_pair(&rand_small_ty(&mut rng, 3), &Ty::word(rng.below(4))) } else { dag };
+        // (half of them cycle through the sums of two different equal-width types with every value of theirs)
+        let mut fixed_w1: Option<J> = None;
+        let dag = if attempts % 4 == 1 {
+            let k = attempts / 4;
+            if k % 2 == 0 {
+                let cands = equal_width_sums();
+                let t = &cands[(k / 2) % cands.len()];
+                let vals = all_vals(t);
+                fixed_w1 = Some(vals[(k / 2 / cands.len()) % vals.len()].clone());
+                typed_witness_pair(t, &Ty::word(3))
+            } else { typed_witness_pair(&rand_small_ty(&mut rng, 3), &Ty::word(rng.below(4))) }
+        } else { dag };
         let n = dag.as_array().unwrap().len();
         let mut ty = vec![J::Null; n];
         ty[n - 1] = json!([["1"], ["1"]]);
@@ -280,6 +291,7 @@ pub fn record_c01(runs: usize, path: &str) {
         for (i, nd) in dag.as_array().unwrap().iter().enumerate() {
             if nd[0] == "witness" { auxv[i] = Ty::from_final(&ty_of(&full_ty[i][1])).rand_val(&mut rng); }
         }
+        if let Some(v) = fixed_w1 { auxv[0] = v; }
         let prune_it = rng.chance(1, 3);
         let ev = guarded(|| {
             types::Context::with_context(|ctx| {
